@@ -6,6 +6,7 @@
 package main
 
 import (
+	"os"
 	"bytes"
 	"fmt"
 	"sort"
@@ -30,7 +31,13 @@ func forwardable(m sw.PubMsg) bool { return sw.Forwardable(m) }
 
 type sys = sw.Sys
 
-func newSys(c cfg) *sys { return sw.NewSys(c, check) }
+func newSys(c cfg) *sys {
+	if on, _ := c.Conf["relay_push.enable"].(bool); on {
+		// relay push: the target accepts at once and answers like a server (a reference peer)
+		c.Init = func(x *sw.X) { x.W.EnableRelay(map[string]string{"pushA": "accept"}) }
+	}
+	return sw.NewSys(c, check)
+}
 
 // expectedPayload is the only permitted representation difference: metadata without @setDataFrame for players.
 func expectedPayload(m sw.PubMsg) []byte {
@@ -58,8 +65,12 @@ func checkSeq(s *sys, who string, kind string, recv []sw.Recv, join int, attache
 			return vs
 		}
 		m := P[r.Idx]
-		if r.Type != m.Type || !bytes.Equal(r.Payload, expectedPayload(m)) {
-			add("payload", "message %s arrived altered: type %d len %d, want type %d len %d", m, r.Type, len(r.Payload), m.Type, len(expectedPayload(m)))
+		want := expectedPayload(m)
+		if kind == "push" && m.Type == 18 {
+			want = sw.EnsureSdf(m.Payload) // relay push: @setDataFrame is ensured, not stripped
+		}
+		if r.Type != m.Type || !bytes.Equal(r.Payload, want) {
+			add("payload", "message %s arrived altered: type %d len %d, want type %d len %d", m, r.Type, len(r.Payload), m.Type, len(want))
 		}
 		if r.Ts != m.Ts {
 			add("timestamp", "message %s arrived with timestamp %d", m, r.Ts)
@@ -182,6 +193,51 @@ func check(s *sys) []seqx.Viol {
 		}
 		vs = append(vs, checkSeq(s, fmt.Sprintf("consumer %d (%s, joined at #%d)", c.ID, c.Kind, c.Join), c.Kind, c.Recv, c.Join, !c.Left, c.Err, lag)...)
 	}
+	// relay-push targets: each push session is a consumer of its publisher's incarnation
+	var pushDials []int
+	var pushRecv [][]sw.Recv
+	for _, d := range s.X.W.AllDials() {
+		if d.Origin == nil || d.Origin.Role != "publish" {
+			continue
+		}
+		who := fmt.Sprintf("relay-push session #%d to %s", d.Seq, d.Name)
+		if os.Getenv("C01_DEBUG") != "" {
+			fmt.Fprintf(os.Stderr, "PUSH %s started=%v msgs=%d decErr=%v cmds=%v\n", who, d.Origin.Started, len(d.Origin.Msgs), d.Origin.DecErr, fmt.Sprint(d.Origin.Cmds, d.Origin.RawLen(), d.Conn.HasOutput(), d.Conn.Writes(), d.Conn.Closed()))
+		}
+		if d.Origin.DecErr != nil {
+			vs = append(vs, seqx.Viol{Key: "framing/push", What: who + ": what lal sent does not decode as an RTMP chunk stream: " + d.Origin.DecErr.Error()})
+			continue
+		}
+		var recv []sw.Recv
+		for _, m := range d.Origin.Msgs {
+			r := sw.Recv{Type: m.Type, Ts: m.Ts, Payload: m.Payload}
+			r.Kind, r.Idx, r.Known = sw.IdxOf(m.Type, m.Payload)
+			recv = append(recv, r)
+		}
+		vs = append(vs, checkSeq(s, who, "push", recv, 0, !d.Conn.Closed(), "", 0)...)
+		pushDials = append(pushDials, len(recv))
+		pushRecv = append(pushRecv, recv)
+	}
+	// a push session is opened when its publisher arrives (the target of this configuration accepts at
+	// once), so the i-th session is the consumer of the i-th publisher from that publisher's first
+	// message on: it has received every forwardable message of that publisher (relay push has no
+	// merge-write, nothing may be held back)
+	if len(pushDials) == s.X.Inc {
+		for i, recv := range pushRecv {
+			got := map[int]bool{}
+			for _, r := range recv {
+				if r.Known {
+					got[r.Idx] = true
+				}
+			}
+			for _, m := range s.X.Published {
+				if m.Inc == i+1 && forwardable(m) && !got[m.Idx] {
+					vs = append(vs, seqx.Viol{Key: "stalled-run/push", What: fmt.Sprintf("relay-push session of publisher %d has not received %s although the event that published it has settled (%d messages received)", i+1, m, len(recv))})
+					break
+				}
+			}
+		}
+	}
 	// FLV recording: one file per incarnation, every forwardable message in order
 	files, recs, errs := s.X.RecordFlv()
 	for _, e := range errs {
@@ -232,6 +288,7 @@ func configs(r *vk.Run) []cfg {
 	add("merge+gop1", lean, true, 0, "rtmp.merge_write_size", 130, "rtmp.gop_num", 1, "httpflv.gop_num", 1)
 	add("record", lean, true, 0, "record.enable_flv", true)
 	add("nopub-start", lean, false, 0, "rtmp.gop_num", 1, "httpflv.gop_num", 1)
+	add("push", append(append([]string{}, pAll...), "J:rtmp", "PubLeave", "PubArrive"), false, 0, "relay_push.enable", true, "relay_push.addr_list", []interface{}{"$W-pushA:1935"})
 	if !r.Quick() {
 		add("gop2", full, true, 0, "rtmp.gop_num", 2, "httpflv.gop_num", 1)
 		add("gop1cap2+merge", full, true, 0, "rtmp.gop_num", 1, "httpflv.gop_num", 2, "rtmp.single_gop_max_frame_num", 2, "rtmp.merge_write_size", 100)
@@ -318,7 +375,7 @@ func main() {
 	r.Assume("write queues of subscribers forced to 0 (synchronous): the statement excludes back-pressured transports (C15)",
 		"consumer bytes are decoded by lib/ref (RTMP chunk stream, FLV, WebSocket), never by lal",
 		"data independence: lal inspects only type, payload[0..4] and length; message identity travels in later payload bytes",
-		"relay-push targets are checked in C17 (needs the dial seam); at most 3 simultaneous consumers, 2 publisher incarnations")
+		"relay-push targets: one target that accepts at once (a server-role reference peer); C17 decides when push sessions start, retry and stop; at most 3 simultaneous consumers, 2 publisher incarnations")
 	if r.ReplayIn != "" {
 		var rp replay
 		r.LoadReplay(&rp)
